@@ -12,1208 +12,1418 @@ Definition show_fres (r : fres) : string :=
   end.
 Definition check (rs : list rune) : string := digest (show_fres (format_res rs)).
 Definition full (rs : list rune) : string := show_fres (format_res rs).
-Eval vm_compute in ("<<<M1369>>>" ++ check (runes_of_ascii "// top
+Eval vm_compute in ("<<<M1354>>>" ++ check (runes_of_ascii "// top
 options // c0
 { // c1
-FixedStringPadFromLeft = // c3a
+StringPrefixLenType = // c3a
   // c3b
-true
+u64
     // c4
-;
-    // c5
-FixedStringPadChar // c6
-= // c7
-'0'
-    // c8
+; // c5
+ArrayPrefixLenType // c6
+= u32 // c8
 ;
     // c9
-} // c10
-packet // c11
-Leg // c12
-{
-    // c13
-repeat // c14
-InSym93
-    // c15
-{
-    // c16
-zchar[
-    // c17
-3 // c18
+FixedStringPadFromLeft
+    // c10
+= // c11
+false // c12a
+  // c12b
+; } // c14a
+  // c14b
+packet // c15a
+  // c15b
+Party { zchar[ 7 // c19a
+  // c19b
 ]
-    // c19
-Acct
     // c20
-,
+OrderId
     // c21
-string // c22
-Side2 // c23a
-  // c23b
-, // c24
-i32 Flags ,
-    // c27
-f32 // c28
-Note // c29a
-  // c29b
-, // c30a
+,
+    // c22
+InTail6 // c23
+{ repeat // c25
+char[ // c26a
+  // c26b
+1 ] msgKind , // c30a
   // c30b
-i32
-    // c31
-msgKind // c32a
+char[ 3 // c32a
   // c32b
-, } // c34
+] // c33a
+  // c33b
+Tail // c34
 ,
     // c35
-f64 // c36a
-  // c36b
-Note
-    // c37
-, // c38
-uint16
+char[ 3 // c37a
+  // c37b
+] Flags
     // c39
-Px // c40
-, // c41a
-  // c41b
-}
-    // c42
-packet
-    // c43
-Quote // c44a
-  // c44b
-{ // c45a
-  // c45b
-zchar[ // c46
-2 ] // c48a
-  // c48b
-OrderId
-    // c49
-, } // c51
-packet Ack // c53
-{ // c54a
+, // c40
+i16
+    // c41
+tag7 // c42a
+  // c42b
+, // c43
+} // c44
+, @rightPad // c46a
+  // c46b
+(
+    // c47
+'0' // c48
+) // c49
+char[ // c50a
+  // c50b
+12
+    // c51
+] // c52
+clOrdID // c53
+, // c54a
   // c54b
-repeat // c55a
-  // c55b
-string // c56a
+}
+    // c55
+packet // c56a
   // c56b
-lastPx ,
-    // c58
-zchar[ // c59a
-  // c59b
-4 // c60
-]
-    // c61
-price , uint32 OrderId // c65a
-  // c65b
-, // c66
-Quote
-    // c67
-,
-    // c68
-int8 // c69a
-  // c69b
-Acct
-    // c70
-,
-    // c71
-} packet Fill
-    // c74
+Quote // c57
 {
-    // c75
+    // c58
+@leftPad // c59a
+  // c59b
+( // c60a
+  // c60b
+'0' // c61a
+  // c61b
+) // c62
+char[ 11
+    // c64
+] price // c66
+,
+    // c67
 repeat
+    // c68
+InCount7 { // c70
+i32
+    // c71
+x , // c73a
+  // c73b
+Party , u8
     // c76
-Leg // c77
+Ref // c77a
+  // c77b
 , // c78a
   // c78b
-@rightPad // c79a
-  // c79b
-( '0' // c81a
-  // c81b
-) // c82
-char[
-    // c83
-11
-    // c84
-]
-    // c85
-Note , // c87a
+u8 tag7 , // c81
+} // c82
+, // c83
+char[] // c84a
+  // c84b
+seqNo ,
+    // c86
+Party // c87a
   // c87b
-f64
-    // c88
-Px ,
-    // c90
-@rightPad // c91a
-  // c91b
-( // c92
-'\x00'
-    // c93
-) // c94a
-  // c94b
-char[ // c95a
-  // c95b
-5 // c96
-] // c97a
+, // c88
+}
+    // c89
+packet Logon
+    // c91
+{ @rightPad // c93a
+  // c93b
+( '\x00' ) // c96a
+  // c96b
+char[ // c97a
   // c97b
-Flags // c98
-, zchar[ // c100a
-  // c100b
-9 // c101a
+5 // c98
+]
+    // c99
+Note , // c101a
   // c101b
-] // c102
-x // c103
+i16
+    // c102
+sym
+    // c103
 , // c104a
   // c104b
-string // c105a
+InPrice72 // c105a
   // c105b
-msgKind // c106
-, } // c108
-root packet // c110a
-  // c110b
-Order // c111a
-  // c111b
-{ // c112
-Leg // c113
-, // c114a
-  // c114b
-repeat // c115
-Ack // c116
-, @rightPad ( // c119a
-  // c119b
-'\x00' // c120
-) char[
-    // c122
-3 ] // c124a
-  // c124b
-Side2
-    // c125
-, // c126
+{ char[ // c107
+9
+    // c108
+] // c109
+Ref ,
+    // c111
+zchar[ // c112
+1
+    // c113
+]
+    // c114
+venue ,
+    // c116
+} // c117a
+  // c117b
+, // c118
+char[]
+    // c119
+clOrdID
+    // c120
+, // c121a
+  // c121b
+} root // c123a
+  // c123b
+packet // c124
+Reject {
+    // c126
 repeat
     // c127
-char[
+Logon
     // c128
-1 // c129a
+, // c129a
   // c129b
-] // c130
-seqNo
-    // c131
-, // c132
-u16 // c133
-clOrdID
-    // c134
-, // c135a
-  // c135b
-match
-    // c136
-clOrdID // c137
-as Body
-    // c139
-{
-    // c140
-198 // c141a
-  // c141b
-: // c142
-Leg // c143a
-  // c143b
-, // c144a
-  // c144b
-23 :
+@leftPad // c130a
+  // c130b
+( // c131a
+  // c131b
+' ' ) // c133
+char[ 4
+    // c135
+] seqNo , zchar[ 5 // c140a
+  // c140b
+] // c141
+Acct // c142a
+  // c142b
+,
+    // c143
+u32 x
+    // c145
+,
     // c146
-Quote // c147a
-  // c147b
-, // c148
-13 // c149a
-  // c149b
-: // c150a
+u16
+    // c147
+f1 @lengthOf(
+    // c149
+Body // c150a
   // c150b
-Ack // c151
+) // c151
 ,
     // c152
-159
-    // c153
-:
-    // c154
-Fill // c155a
-  // c155b
-,
-    // c156
-} , u32 venue // c160
-@calculatedFrom( // c161a
-  // c161b
-""CRC32"" // c162
-) // c163a
-  // c163b
-,
-    // c164
-} // c165a
-  // c165b
-")).
-Eval vm_compute in ("<<<M271>>>" ++ check (runes_of_ascii "// packet A { u8 x, }
-packet string_ {
-@tag( 4294967296)
-@calculatedFrom( """ ++ [128512]%N ++ runes_of_ascii """ )@calculatedFrom( ""1"" )  leftPad @lengthOf( //	t
-int )  ``
-// `tick` ""quote"" 'q'
-//
-, repeat Packet{ zchar[
-0
-    // packet A { u8 x, }
-    ]options1 `line1
-line2` , },
-    @calculatedFrom( """"	) float32
-    u8x
-    ,
-float , i64_
-{ packetx {  i16	falsey, f32 repeatCount
-    `{ , }`,} ,
-    repeat char[
-0  ] i8i8, string	o @lengthOf( options1 ) , } , i64_
-@calculatedFrom(""a\""b"" )
-/// triple
-//x
-`a\`  , @rightPad ( )@lengthOf( packetx
-    )
-match matchKey as stringy{ ""a	b"":
-body,}
-    ,
-    // " ++ [27880; 37322]%N ++ runes_of_ascii "
-    @lengthOf(
-u128
-) @calculatedFrom(
-    ""`tick`"" ) @rightPad
-    () // @lengthOf(
-repeat falsey
-string_ `" ++ [28040; 24687; 31867; 22411]%N ++ runes_of_ascii "`
-    ,string As`it's`
-    ,
-@calculatedFrom( """ ++ [28040; 24687]%N ++ runes_of_ascii """ ) repeat rootA { float64
-body	,
-} , } options {zchar
-=
-    // " ++ [128512]%N ++ runes_of_ascii " emoji
-    true  ;  i8i8= 3; } packet	leftPad{	@calculatedFrom(
-    // c
-    """" ) //x
-@leftPad( ' ' )
-@calculatedFrom(
-""abc"" ) repeat MetaDataX{  char[] Pad , body
-@lengthOf( Foo )
-/// triple
-/// triple
-,uint64 i8i8 ,char[ 42 ]options1
-@calculatedFrom( ""x y""
-),}
-,
-} packet stringy
-    /// triple
-    {	@calculatedFrom( """ ++ [28040; 24687]%N ++ runes_of_ascii """ )BodyLength	len
-    ,@lengthOf(
-u
-    ) i8i8
-metadata
-, @calculatedFrom(
-""a\\""
-) //x
-packetx
-    ,
-    f64 i8i8	@lengthOf( Header
-    )
-    , metadata
-`
-`,@lengthOf( int ) repeat falsey	,
-repeat char[]
-trueish
-,
-    }
-")).
-Eval vm_compute in ("<<<M1716>>>" ++ check (runes_of_ascii "options {
-    BodyLength = char[7];
-}
-
-// c
-// @lengthOf(
-packet asx {
-    int16 x_y_z,
-    @calculatedFrom("""")
-    @lengthOf(chars)
-    //
-    repeat repeatCount charz,
-    @leftPad()
-    i64_ @calculatedFrom(""\" ++ [233]%N ++ runes_of_ascii """) `// not a comment`,
-    tag Z9_ `two words`,
-    @lengthOf(asx)
-    @calculatedFrom(""`tick`"")
-    match uint8x as matchKey {
-        0123456789 : u8x,
-        1 : zchar,
-    },
-    u128 @lengthOf(u128),
-}
-
-MetaData msg_type {
-    string BodyLength `two words`,
-    options1 i64_,
-}// " ++ [128512]%N ++ runes_of_ascii " emoji
-
-packet roots {
-    u ``,
-    @calculatedFrom(""a	b"")
-    match len as msg_type {
-        // c
-        """ ++ [28040; 24687]%N ++ runes_of_ascii """ : charz,
-    },
-    crc @calculatedFrom(""it's"") `a\`,
-    @leftPad('0')
-    @tag(007)
-    zchar[3] falsey,
-    @calculatedFrom(""\n"")
-    @calculatedFrom(""CRC32"")
-    // trailing space 
-    match Packet as stringy {
-        1 : Pad,
-        ""it's"" : f32a,
-    },
-    @leftPad(' ')
-    match int as a1 {
-        [0123456789, 255] : options1,
-        //x
-        //x
-    },
-    BodyLength @calculatedFrom(""" ++ [28040; 24687]%N ++ runes_of_ascii """),
-    float32 zchar @calculatedFrom(""// no comment""),
-    @tag(10)
-    zchar[1] rootA,
-}")).
-Eval vm_compute in ("<<<M1536>>>" ++ check (runes_of_ascii "
-options
-	//x
-  	// @lengthOf(
-	  {Foo
-= ""// no comment""
-	    /// triple
-	//	t
-  	;} packet 
-float
-
-    {
-
-}
-packet
-	len 
-{ @lengthOf(
-    _x  )stringy {
-	metadata
-
-    @calculatedFrom(
-
-""a\\""
-
-    ) 
-,
-	}
-,
-//x
-	  //
-	}  packet
-
-asx { @tag( 0
-    )  repeat
-    float64
-	A  `say ""hi""` , 
-  //
-// trailing space 
-  i16  int`say ""hi""`,@calculatedFrom(
-
-    """ ++ [128512]%N ++ runes_of_ascii """
-) lengthOf Header `two words`  , f32a zchar , @rightPad
-	(
-    '0' ) repeat	string_ 
-// packet A { u8 x, }
-	chars
-
-``
-    , @tag(
-4294967296	)
-@calculatedFrom(
-
-""a	b"" )
-    repeat
-
-msg_type
-, @leftPad
-( 
-)
-
-    repeat f64
-_x
-,
-repeat As{  Logon @lengthOf(	calculatedFrom)
-`two words`  ,
-    repeat
-u64 o
-
-    `u8 x,` ,}
-	, @calculatedFrom(""packet"" )
-repeat// @lengthOf(
-    uint8
-    u	,}
-packet
-
-    uint8x 
-{@leftPad	('0' ) 
-
-    //	t
-//x
-  zchar[ 
-    // packet A { u8 x, }
-    // " ++ [27880; 37322]%N ++ runes_of_ascii "
-
-255]	metadata
-
-    `a\`
-	,	//
-
-	} // `tick` ""quote"" 'q'
- 
-")).
-Eval vm_compute in ("<<<M1576>>>" ++ check (runes_of_ascii "root packet asx {
-    leftPad {
-        u128 @calculatedFrom(""1""),//x
-    },
-    lengthOf @calculatedFrom(""" ++ [128512]%N ++ runes_of_ascii """) `a\`,
-    i64 Packet @lengthOf(calculatedFrom),
-    @calculatedFrom(""" ++ [233]%N ++ runes_of_ascii "t" ++ [233]%N ++ runes_of_ascii """)
-    stringy a1 `doc`,
-    @rightPad()
-    // c
-    a1 `a\`,
-    char Header @lengthOf(x) `say ""hi""`,
-    uint8x Z9_ `tab	here`,
-}
-
-options {
-    calculatedFrom = 0
-}
-
-packet metadata {
-    @leftPad('\x00')
-    f32 pack,
-    @tag(65535)
-    u32 uint8x @lengthOf(repeatCount) ``,
-    MetaDataX {
-        repeat options1,
-        match matchKey as len {
-            """ ++ [128512]%N ++ runes_of_ascii """ : u8x,
-            1 : zchar,
-            /// triple
-            [""a\\"", ""x y""] : charz,
-            0 : x_y_z,
-            [4294967296] : asx,
-            [""a\""b"", ""\n"", ""\" ++ [233]%N ++ runes_of_ascii """, 10] : _x,
-        },
-        uint8 metadata @lengthOf(float),
-        zchar[255] i8i8,
-    },
-}
-
-root packet f32a {
-}")).
-Eval vm_compute in ("<<<M1596>>>" ++ check (runes_of_ascii "MetaData x {
-    len crc,
-    float asx,
-    i32 uint8x `line1
-    line2`,
-    u16 tag `it's`,
-    As string_,
-}
-
-packet metadata {
-    @lengthOf(zchar)
-    // c
-    i64_ @calculatedFrom(""\" ++ [233]%N ++ runes_of_ascii """),//x
-    @leftPad('\x00')
-    zchar[10] zchar,
-    lengthOf string_,
-    int @lengthOf(pack),
-    zchar[00] Foo,
-    @lengthOf(packetx)
-    @leftPad('\x00')
-    @calculatedFrom(""x y"")
-    uint16 len @calculatedFrom("""") `two words`,
-    int8 metadata @lengthOf(Foo) `two words`,// @lengthOf(
-}
-
-options {
-}
-
-packet pack {
-    // `tick` ""quote"" 'q'
-    //
-    f64 o,
-    T BodyLength,
-    repeat uint8 chars `" ++ [233]%N ++ runes_of_ascii "`,
-    repeat Logon u,
-    @tag(0123456789)
-    char[] repeatCount @lengthOf(_x) `
-    `,//
-    @tag(7)
-    repeatCount @calculatedFrom(""packet"") `{ , }`,
-}")).
-Eval vm_compute in ("<<<M344>>>" ++ check (runes_of_ascii "options // a // b
-{	}
-    packet i8i8 { @tag(
-3 ) x
-@calculatedFrom(
-""it's""	) , @lengthOf( f32a ) match
-rootA
-as uint8x // @lengthOf(
-{ 0 : string_ 42 : Packet } , @leftPad
-(
-    '\x00'
-) i64_ packetx `u8 x,` ,
-    @calculatedFrom(""x y"" ) matchKey {len  ,
-    }  ,
-@lengthOf(  matchKey
-)
-    @calculatedFrom(// `tick` ""quote"" 'q'
-""abc"" ) @lengthOf( x_y_z )
-    /// triple
-    repeat metadata `line1
-line2` ,lengthOf repeatCount , /// triple
-int32
-// " ++ [27880; 37322]%N ++ runes_of_ascii "
-//	t
-roots @calculatedFrom( ""`tick`"")
-`" ++ [233]%N ++ runes_of_ascii "` , zchar[
-1	]	Packet	@calculatedFrom(	""// no comment"" ) ,} packet
-    options1
-{ @lengthOf(
-    uint8x ) A @calculatedFrom( ""it's""
-    )
-`doc`, } root packet crc
-{char[	65535	]chars
-,}
-")).
-Eval vm_compute in ("<<<M1893>>>" ++ check (runes_of_ascii "root packet lengthOf {
-    // a // b
-    match i64_ as options1 {
-        ""// no comment"" : f32a,
-        65535 : falsey,
-    },
-    @tag(0)
-    char[] body @lengthOf(lengthOf),
-    u64 string_ `it's`,
-    @lengthOf(string_)
-    crc {
-        repeat zchar[3] u,
-        pack `a\`,
-        char[] crc ``,
-    },
-    int16 metadata `line1
-        line2`,
-}
-
-root packet leftPad {
-    repeat zchar[4294967296] MetaDataX,
-    @tag(10)
-    match tag as falsey {
-        7 : BodyLength,
-        0 : i64_,
-    },
-    repeat char[255] A,
-    char[7] trueish @calculatedFrom(""a\\"") `two words`,
-    i16 Logon,
-}")).
-Eval vm_compute in ("<<<M1729>>>" ++ check (runes_of_ascii "
-
-  packet	leftPad//
-  	{
-
-    @rightPad
-(
-)repeat 
-chars {
-crc  /// triple
-pack , 
-}
-
-,
-@calculatedFrom(  """ ++ [28040; 24687]%N ++ runes_of_ascii """
-)	@lengthOf(
-options1
-) 
-@tag(	65535  ) Foo ,	match  matchKey as	// " ++ [128512]%N ++ runes_of_ascii " emoji
-      tag {
-        // c
-[""{,}"" , """"
-,  ""`tick`"" ,3 ,	""it's""
-,
-	""" ++ [128512]%N ++ runes_of_ascii """ ,""it's""]
-	:  As 
-,
-[
-    /// triple
-      //	t
-
-""x y""
-] 
-	    //x
-    	:chars	,
-""" ++ [233]%N ++ runes_of_ascii "t" ++ [233]%N ++ runes_of_ascii """  :uint8x
-
-    ,4294967296	:	packetx ""// no comment""
-: calculatedFrom,	}  ,
-@calculatedFrom(
-
-""// no comment"" 	 // @lengthOf(
-    	)  char[ // trailing space 
-	  007
-
-    ]	f32a
-
-    ,}  // a // b")).
-Eval vm_compute in ("<<<M1119>>>" ++ check (runes_of_ascii "// top
-root // c0
-packet // c1
-_x // c2
-{ // c3
-match // c4
-Foo // c5
-as // c6
-Z9_ // c7
-{ // c8
-""a	b"" // c9
-: // c10
-Pad // c11
-, // c12
-} // c13
-, // c14
-repeat // c15
-x // c16
-`line1
-line2` // c17
-, // c18
-@rightPad // c19
-( // c20
-' ' // c21
-) // c22
-@calculatedFrom( // c23
-""a\\"" // c24
-) // c25
-metadata // c26
-MetaDataX // c27
-, // c28
-@tag( // c29
-0 // c30
-) // c31
-Logon // c32
-int // c33
-`` // c34
-, // c35
-} // c36
-options // c37
-{ // c38
-T // c39
-= // c40
-'\x00' // c41
-} // c42
-")).
-Eval vm_compute in ("<<<M1491>>>" ++ check (runes_of_ascii "options {
-    LittleEndian = true;
-    StringPrefixLenType = u64;
-    ArrayPrefixLenType = u16;
-    FixedStringPadFromLeft = false;
-    FixedStringPadChar = ' ';
-}
-
-packet Logon {
-    zchar[5] Side2,
-}
-
-root packet Logout {
-    repeat i64 Tail,
-    Logon,
-    repeat i16 OrderId,
-    char[] venue,
-    uint64 x,
-    repeat i16 count,
-    u8 Flags,
-    match Flags as Body {
-        25 : Logon,
-    },
-    u16 Qty @calculatedFrom(""CR\
-    C32""),
-}")).
-Eval vm_compute in ("<<<M306>>>" ++ check (runes_of_ascii "packet rootA { @tag(0123456789 ) options1 {int32 uint8x
-    `u8 x,`
-    , u8x
-//x
-// packet A { u8 x, }
-{
-    match Header as
-    metadata {[	10 ]
-: pack } ,
-    } , f64 // `tick` ""quote"" 'q'
-chars , }
-, @lengthOf( body ) u64
-// @lengthOf(
-//
-Z9_ , }
-MetaData repeatCount
-    {zchar[10 ] string_ , f64 A
-, u32 BodyLength , zchar[ 00 ] uint8x ,
-    trueish
-leftPad,char[ 65535  ] rootA	, }
-//	t
-")).
-Eval vm_compute in ("<<<M1378>>>" ++ check (runes_of_ascii "
-options { LittleEndian
-
-    =
-	true
-
-    ; }	packet
-	Logon {u8 
+match // c153
 x
-    , }	packet	Logout
-
-    {  u16
-
-reason ,}
-root
-packet  Frame
-
-    {
-u8 Kind ,
-
-    u8
-	Kind2 ,
-
-match
-Kind
-	as Body	{
-
-    1	:  Logon 
-, [ 2 ,
-
-3 
+    // c154
+as // c155
+Body // c156a
+  // c156b
+{
+    // c157
+[ // c158
+169 // c159
 ,
-	4
-
-    ]
-    :
-
-Logout	,
-100
-
-:  Logon 
-,}  ,
-    match
-    Kind2
-
-    as	Trailer
-
-    {0
-
-    :
-
-Logout
-, } 
-,	}")).
-Eval vm_compute in ("<<<M1191>>>" ++ check (runes_of_ascii "// top
-MetaData // c0
-uint8x // c1
-{ // c2
-char[] // c3
-f32a // c4
-`// not a comment` // c5
-, // c6
-float32 // c7
-roots // c8
-, // c9
-char[ // c10
-7 // c11
-] // c12
-u8x // c13
-, // c14
-zchar[ // c15
-10 // c16
-] // c17
-f32a // c18
-, // c19
-u64 // c20
-pack // c21
-, // c22
-u16 // c23
-pack // c24
-, // c25
-} // c26
+    // c160
+74 // c161
+] : // c163a
+  // c163b
+Quote // c164
+, 45 // c166a
+  // c166b
+: // c167a
+  // c167b
+Party
+    // c168
+, // c169
+7
+    // c170
+: Logon , // c173a
+  // c173b
+} ,
+    // c175
+}
+    // c176
 ")).
-Eval vm_compute in ("<<<M287>>>" ++ check (runes_of_ascii "root // trailing space 
-packet int {
-    f32a @calculatedFrom(""packet"" )
-    `
-`
-    , } options
-{
-    rootA
-    // @lengthOf(
-    =
-""\" ++ [233]%N ++ runes_of_ascii """; }
-    packet
-i8i8 {
-    // trailing space 
-    uint8
-    uint8x
-    @lengthOf( string_ ) //	t
-, i32 tag //	t
-@lengthOf(
-Logon )  , }")).
-Eval vm_compute in ("<<<M242>>>" ++ check (runes_of_ascii "packet len{} options	{ Z9_ =  4294967296;
-_x =// a // b
-0
-    f32a = zchar[42	] ; } root packet
-    // @lengthOf(
-    BodyLength // trailing space 
-{ }options {
-string_ =u32	;	charz =
-/// triple
-// packet A { u8 x, }
-string
-; } packet len { }")).
-Eval vm_compute in ("<<<M1612>>>" ++ check (runes_of_ascii "
-packet  Logon	{
-    string
-	user  ,}
-root 
-packet Frame{ u8 K,
+Eval vm_compute in ("<<<M1582>>>" ++ check (runes_of_ascii "options {
 
-    match  K  as Body
+    StringPrefixLenType 
+=
+
+    u16 ; ArrayPrefixLenType= u16
+;  }  packet SampleBinary {
+uint16
+    MsgType
+
+`" ++ [28040; 24687; 31867; 22411]%N ++ runes_of_ascii "`,
+u16 BodyLenght@lengthOf(
+Body)
+    `" ++ [28040; 24687; 20307; 38271; 24230]%N ++ runes_of_ascii "`
+	,match
+	MsgType
+as Body  { 1
+:
+
+    Logon	, 2
+
+:
+	Logout ,3  : Heartbeat ,
+4
+: RiskControlRequest
+,5
+:RiskControlResponse
+,	},
+@calculatedFrom(
+""CRC32"")	u32
+    Ckecksum`" ++ [26657; 39564; 21644]%N ++ runes_of_ascii "`	,	}
+	packet
+	Logon	{
+@leftPad
+
+    (	'0'
+	)
+char[ 10
+
+]
+    UserName
+    `" ++ [29992; 25143; 21517]%N ++ runes_of_ascii "`	,string Password	`" ++ [23494; 30721]%N ++ runes_of_ascii "`
+
+    ,  uint64
+ClientId`" ++ [23458; 25143; 31471]%N ++ runes_of_ascii "ID`, u16
+HeartbeatInterval  `" ++ [24515; 36339; 38388; 38548]%N ++ runes_of_ascii "` ,} 
+packet	Logout {
+
+@rightPad( '0'
+	) char[
+10 ]	UserName`" ++ [29992; 25143; 21517]%N ++ runes_of_ascii "` ,
+uint64	ClientId`" ++ [23458; 25143; 31471]%N ++ runes_of_ascii "ID`
+
+,}
+    packet 
+Heartbeat	{
+}	packet
+	RiskControlRequest	{
+string
+
+    UniqueOrderId`" ++ [21807; 19968; 35746; 21333; 21495]%N ++ runes_of_ascii "` ,
+    char[16
+	]
+	ClOrdID
+
+    `" ++ [23458; 25143; 35746; 21333; 21495]%N ++ runes_of_ascii "` 
+,
+
+    char[
+
+3
+]
+MarketID
+
+`" ++ [24066; 22330]%N ++ runes_of_ascii "id` 
+,
+
+    char[ 12
+    ]
+SecurityID`" ++ [35777; 21048; 20195; 30721]%N ++ runes_of_ascii "`
+, 
+char
+	Side
+
+    `" ++ [20080; 21334; 26041; 21521]%N ++ runes_of_ascii "` , char
+OrderType`" ++ [35746; 21333; 31867; 22411]%N ++ runes_of_ascii "`
+	, u64
+	Price
+	`" ++ [20215; 26684]%N ++ runes_of_ascii "`	,
+
+    u32
+    Qty
+
+`" ++ [25968; 37327]%N ++ runes_of_ascii "`
+
+, repeat	string	ExtraInfo
+
+    `" ++ [38468; 21152; 20449; 24687]%N ++ runes_of_ascii "`
+,	repeat SubOrder
 
     {
-1:
-    Logon , 2
-    :Logout ,  } 
-,
-    Tail
-,}packet  Logout
+	char[ 16
+
+]
+	ClOrdID
+`" ++ [23376; 35746; 21333; 21495]%N ++ runes_of_ascii "` ,	u64 Price`" ++ [23376; 35746; 21333; 20215; 26684]%N ++ runes_of_ascii "` ,
+u32 Qty 
+`" ++ [23376; 35746; 21333; 25968; 37327]%N ++ runes_of_ascii "`,} ,
+    }
+packet
+
+RiskControlResponse  {
+
+    string UniqueOrderId  `" ++ [21807; 19968; 35746; 21333; 21495]%N ++ runes_of_ascii "`
+, i32 Status
+    `" ++ [29366; 24577]%N ++ runes_of_ascii "` ,
+string
+Msg
+	`" ++ [32467; 26524; 20449; 24687]%N ++ runes_of_ascii "`
+    ,
+	repeat Detail ,
+}
+	packet
+    Detail 
 {
-	u16 reason
+
+    string  RuleName `" ++ [35268; 21017; 21517; 31216]%N ++ runes_of_ascii "` 
+, u16
+    Code`" ++ [21407; 22240; 20195; 30721]%N ++ runes_of_ascii "`
 ,
 	}
 
-packet 
-Tail
-
-    {u32
-
-crc 
-,}
 ")).
-Eval vm_compute in ("<<<M1752>>>" ++ check (runes_of_ascii "root packet Frame {
-    u8 K,
-    Logon first,
-    match K as Body {
-        1 : Logon,
-        2 : Logout,
+Eval vm_compute in ("<<<M1956>>>" ++ check (runes_of_ascii "packet T {
+    match repeatCount as Packet {
+        ""packet"" : msg_type,
+        00 : Foo,
+        """ ++ [128512]%N ++ runes_of_ascii """ : trueish,
+        """" : repeatCount,
+        [4294967296, 65535] : u,
+    },
+    @calculatedFrom(""a\\"")
+    float32 len @lengthOf(string_),
+    stringy Pad,
+    roots {
+        repeat x_y_z `// not a comment`,
+        T `" ++ [233]%N ++ runes_of_ascii "`,
+    },
+    @tag(007)
+    _x {
+        // " ++ [128512]%N ++ runes_of_ascii " emoji
+        char[] body @calculatedFrom(""" ++ [233]%N ++ runes_of_ascii "t" ++ [233]%N ++ runes_of_ascii """),
+        repeat Pad ``,
+    },
+    match u as packetx {
+        // `tick` ""quote"" 'q'
+        [""// no comment"", 007] : T,
+        [""\" ++ [233]%N ++ runes_of_ascii """] : u8x,
+    },
+    @rightPad()
+    int8 _x,
+    @lengthOf(A)
+    match crc as metadata {
+        [00, ""a\""b"", 3, 1, 10] : Packet,
+        //	t
+        [4294967296, ""abc"", """"] : a1,
+        """ ++ [28040; 24687]%N ++ runes_of_ascii """ : repeatCount,
     },
 }
 
-packet Logon {
-    string user,
+options {
 }
 
-packet Logout {
-    u16 reason,
-}")).
-Eval vm_compute in ("<<<M1746>>>" ++ check (runes_of_ascii "packet crc {
-    @leftPad()
-    repeat charz float,
+MetaData Header {
+    trueish Pad,
 }
 
-root packet options1 {
-    @tag(65535)
-    packetx {
-        u128,
-        f32 a1,
-    },
+MetaData Z9_ {
+    char[] metadata,
+    // " ++ [128512]%N ++ runes_of_ascii " emoji
+    // packet A { u8 x, }
+    Header A `doc`,//x
+    uint32 packetx,
+    int16 uint8x,
+    Header leftPad,// packet A { u8 x, }
 }
 // trailing space ")).
-Eval vm_compute in ("<<<M1788>>>" ++ check (runes_of_ascii "packet
-	A  { 
-match 
-k
-	as
-    n
-    {	[  1
+Eval vm_compute in ("<<<M196>>>" ++ check (runes_of_ascii "root  packet u { match //x
+T as body// c
+{
+[
+""a\""b""
+    , 3 ] :
+stringy  ""a	b"" : charz // a // b
 ,
-	""bb"" , 007
+    10:  lengthOf// " ++ [128512]%N ++ runes_of_ascii " emoji
+, ""CRC32"" : falsey
 ,
+    0123456789 : _x ,
+    } , body @lengthOf( i64_ )
+, u64 chars
+`u8 x,` ,T {i64_ string_,
+    u32 metadata , zchar[ 1
+]Z9_,}
+    // c
+    ,@calculatedFrom( ""a\\"" ) rootA // " ++ [128512]%N ++ runes_of_ascii " emoji
+x_y_z
+`u8 x,` ,
+    zchar[ 007 ]body @calculatedFrom(
+""\n""
+) ,
+    @leftPad (
+'0') @rightPad
+    ( '0' )
+@calculatedFrom( """ ++ [233]%N ++ runes_of_ascii "t" ++ [233]%N ++ runes_of_ascii """
+    )	repeat uint64 A	, repeat  u8x
+    { match
+o
+as
+x
+    {
+    10	:charz
+// " ++ [27880; 37322]%N ++ runes_of_ascii "
+// " ++ [27880; 37322]%N ++ runes_of_ascii "
+,""a	b"": matchKey
+, ""x y""
+:
+    trueish ,[ """ ++ [233]%N ++ runes_of_ascii "t" ++ [233]%N ++ runes_of_ascii """ ] : zchar,""1"" : charz // " ++ [27880; 37322]%N ++ runes_of_ascii "
+,
+[ ""a\""b"" ,
+""abc""
+, ""a\\"", ""abc"" ,
+// packet A { u8 x, }
+// " ++ [128512]%N ++ runes_of_ascii " emoji
+""""
+// packet A { u8 x, }
+/// triple
+] : u8x, } ,	},repeat falsey { rootA
+    tag ,
+    zchar[/// triple
+0 ] falsey ,  }
+    , charz a1 `{ , }`
+, } root
+packet /// triple
+Header{}
+")).
+Eval vm_compute in ("<<<M1339>>>" ++ check (runes_of_ascii "// top
+options // c0
+{ // c1
+LittleEndian
+    // c2
+= // c3
+true
+    // c4
+; // c5a
+  // c5b
+StringPrefixLenType =
+    // c7
+u16
+    // c8
+; FixedStringPadChar = ' ' // c12
+;
+    // c13
+}
+    // c14
+packet
+    // c15
+Logon // c16
+{
+    // c17
+@leftPad ( '0' // c20
+)
+    // c21
+char[
+    // c22
+10 // c23
+] // c24
+tag7 , // c26
+} root packet
+    // c29
+Ack { int32 // c32a
+  // c32b
+Px // c33
+, // c34
+uint16
+    // c35
+count // c36
+, // c37
+string // c38
+Qty // c39
+,
+    // c40
+string OrderId
+    // c42
+, string // c44a
+  // c44b
+Flags ,
+    // c46
+u8 // c47a
+  // c47b
+x // c48a
+  // c48b
+,
+    // c49
+match x // c51
+as // c52a
+  // c52b
+Body // c53
+{ // c54a
+  // c54b
+[ 58 , // c57a
+  // c57b
+169 // c58a
+  // c58b
+]
+    // c59
+: // c60
+Logon // c61a
+  // c61b
+, // c62a
+  // c62b
+} , } // c65
+")).
+Eval vm_compute in ("<<<M93>>>" ++ check (runes_of_ascii "packet float { char[]
+    u8x
+@lengthOf( roots ) ,
+}MetaData leftPad	{ string
+    // `tick` ""quote"" 'q'
+    a1, }root
+packet // " ++ [27880; 37322]%N ++ runes_of_ascii "
+pack { falsey,
+    /// triple
+    match Logon
+as // " ++ [128512]%N ++ runes_of_ascii " emoji
+trueish
+{""packet""
+    : Foo ,"""" : len, 0123456789: i64_ , ""it's"" : packetx
+    ,
+    255
+    : len
+, }
+    , repeat
+As As `" ++ [233]%N ++ runes_of_ascii "` , @tag( 3  ) uint32 a1
+, repeat  zchar[ 4294967296]
+pack	,@leftPad (' ' )  zchar  @lengthOf( string_ ) `// not a comment` , repeat int ,
+repeat
+i8i8 // " ++ [27880; 37322]%N ++ runes_of_ascii "
+{ u64
+    // a // b
+    tag `say ""hi""`	,u8x , char trueish  , repeat // packet A { u8 x, }
+float32
+    stringy `line1
+line2` ,} ,match o
+as	o { 007  : float },
+// packet A { u8 x, }
+// c
+repeat
+    Pad ,
+// " ++ [27880; 37322]%N ++ runes_of_ascii "
+// trailing space 
+}")).
+Eval vm_compute in ("<<<M1122>>>" ++ check (runes_of_ascii "// top
+options // c0
+{ // c1
+uint8x // c2
+= // c3
+007 // c4
+; // c5
+lengthOf // c6
+= // c7
+i8 // c8
+; // c9
+} // c10
+packet // c11
+i64_ // c12
+{ // c13
+@calculatedFrom( // c14
+""1"" // c15
+) // c16
+@tag( // c17
+3 // c18
+) // c19
+@lengthOf( // c20
+rootA // c21
+) // c22
+repeat // c23
+int8 // c24
+Packet // c25
+`u8 x,` // c26
+, // c27
+} // c28
+root // c29
+packet // c30
+stringy // c31
+{ // c32
+@rightPad // c33
+( // c34
+' ' // c35
+) // c36
+repeat // c37
+char[ // c38
+10 // c39
+] // c40
+repeatCount // c41
+, // c42
+@tag( // c43
+255 // c44
+) // c45
+float64 // c46
+msg_type // c47
+@calculatedFrom( // c48
+""packet"" // c49
+) // c50
+, // c51
+} // c52
+")).
+Eval vm_compute in ("<<<M1114>>>" ++ check (runes_of_ascii "// top
+packet
+    // c0
+float
+    // c1
+{
+    // c2
+@rightPad
+    // c3
+(
+    // c4
+)
+    // c5
+rootA
+    // c6
+@lengthOf(
+    // c7
+trueish
+    // c8
+)
+    // c9
+,
+    // c10
+stringy
+    // c11
+@lengthOf(
+    // c12
+matchKey
+    // c13
+)
+    // c14
+,
+    // c15
+char[
+    // c16
+4294967296
+    // c17
+]
+    // c18
+pack
+    // c19
+@lengthOf(
+    // c20
+uint8x
+    // c21
+)
+    // c22
+,
+    // c23
+}
+    // c24
+root
+    // c25
+packet
+    // c26
+trueish
+    // c27
+{
+    // c28
+repeat
+    // c29
+uint64
+    // c30
+u128
+    // c31
+`line1
+line2`
+    // c32
+,
+    // c33
+}
+    // c34
+")).
+Eval vm_compute in ("<<<M1115>>>" ++ check (runes_of_ascii "packet float
+    // c1
+{ // c2
+@rightPad // c3a
+  // c3b
+( // c4a
+  // c4b
+) // c5a
+  // c5b
+rootA // c6
+@lengthOf( // c7a
+  // c7b
+trueish // c8
+)
+    // c9
+,
+    // c10
+stringy // c11a
+  // c11b
+@lengthOf( // c12a
+  // c12b
+matchKey )
+    // c14
+, // c15a
+  // c15b
+char[ 4294967296 ]
+    // c18
+pack @lengthOf(
+    // c20
+uint8x
+    // c21
+) // c22a
+  // c22b
+,
+    // c23
+} // c24
+root // c25
+packet trueish {
+    // c28
+repeat uint64
+    // c30
+u128
+    // c31
+`line1
+line2` // c32
+,
+    // c33
+}
+    // c34
+")).
+Eval vm_compute in ("<<<M1549>>>" ++ check (runes_of_ascii "
+// packet A { u8 x, }
+		MetaData roots
+
+{ char[
+
+    00
+    ]	lengthOf
+
+``
+	,
+As
+stringy
+    ,
+
+    x 
+calculatedFrom
+
+    ,
+}packet
+
+i8i8 
+{ crc `crlf
+line` , @rightPad // a // b
+	(
+
+    )
+zchar[
+
+    42
+]falsey  // trailing space 
+    , 
+    /// triple
+    @tag(
+42
+)u32
+
+    leftPad , 
+@tag(42)
+a1
+@lengthOf(
+	Z9_ )
+, match
+leftPad  as
+
+    crc  {
+[
+    ""a\""b""  , 1
+, 255
+]
+	:trueish
+
+,3  :
+
+    float ,
+
+    0: lengthOf ,
+	}	,
+} ")).
+Eval vm_compute in ("<<<M1482>>>" ++ check (runes_of_ascii "
+packet Frame {
+u8
+
+HK,
+u8
+	BK
+,
+
+u8
+TK
+,match
+	HK as
+	Hdr
+{
+1  :HdrA
+
+    , 
+2:
+HdrB
+,} 
+,
+match
+    BK as Body
+{  1 : BodyA ,
+
+2 : 
+BodyB , },
+    match
+
+TK
+    as	Trl {
+	1
+
+:TrlA  ,
+}	,  }
+
+    packet
+
+    HdrA {
+
+u8  a,
+    }packet
+
+HdrB {u16
+b , 
+} packet
+BodyA
+
+    {
+
+    u32
+c , }packet BodyB{u64
+d  ,
+	}
+
+    packet
+TrlA	{
+u8 e
+
+,
+    }root
+    packet
+Msg{
+
+Frame
+	,
+    u8 x
+,
+
+    }
+")).
+Eval vm_compute in ("<<<M1562>>>" ++ check (runes_of_ascii "MetaData Pad {
+    i16 repeatCount,// c
+    f32 pack `a\`,
+}
+
+packet f32a {
+    @lengthOf(metadata)
+    match msg_type as matchKey {
+        00 : rootA,
+    },
+    @rightPad()
+    match repeatCount as len {
+        [""x y"", 10] : As,
+        42 : i64_,
+        """ ++ [128512]%N ++ runes_of_ascii """ : BodyLength,
+        7 : f32a,
+    },
+    @lengthOf(BodyLength)
+    repeat Foo `line1
+    line2`,
+}// @lengthOf(")).
+Eval vm_compute in ("<<<M245>>>" ++ check (runes_of_ascii "MetaData float{ int16
+// c
+// " ++ [128512]%N ++ runes_of_ascii " emoji
+chars , int8 _x
+, char	charz ,
+Header  u8x
+    , u16 _x
+,
+    // @lengthOf(
+    x_y_z repeatCount ,}	packet Foo
+{ @tag(//	t
+1  )
+string Logon	`
+`
+, }//x
+options{ zchar =  ' ' trueish = //x
+""""
+    leftPad =255 ;
+}	root packet options1 {u64 packetx// `tick` ""quote"" 'q'
+@calculatedFrom(""// no comment""  ) ``,}
+")).
+Eval vm_compute in ("<<<M1652>>>" ++ check (runes_of_ascii "packet
+
+Logon	{
+	o
+
+Header	, Header  ,
+@lengthOf(
+
+u
+    )
+char[	255	]
+
+tag  `tab	here`
+,  char[] falsey	, @lengthOf(
+
+    zchar
+
+)
+    @rightPad  (  )float
+	roots  // @lengthOf(
+    , @calculatedFrom(""// no comment""
+	)i64
+
+    u8x,}
+	options {
+metadata
+=	'0' ;_x
+    = 
+4294967296 ;
+Packet=
+'0'
+
+    ; 
+}
+")).
+Eval vm_compute in ("<<<M1519>>>" ++ check (runes_of_ascii "
+options
+
+    {  LittleEndian
+=
+    true; }packet
+    Logon{
+    u8	x
+
+    ,  string
+user , }
+    packet 
+Logout 
+{ u16
+	reason ,} packet
+    Empty {	} 
+root packet	Frame
+{
+u16	MsgType, u8 BodyLen
+	@lengthOf(  Body
+    ) ,	u8 flags
+    ,  Logon Body
+,  u32 trailer
+,  } ")).
+Eval vm_compute in ("<<<M1387>>>" ++ check (runes_of_ascii "packet Sub
+	{
+	u8
+	a ,  @calculatedFrom(
+""CRC16""
+
+)
+    i32  SubSum
+,
+
+    }root  packet
+    Frame
+
+{u16
+	MsgType
+	,
+u16
+	BodyLen
+
+@lengthOf(	Body)
+,
+
+    Sub	Body ,
+string
+	note ,
+@calculatedFrom(""CRC16"")
+    i32 
+Checksum  , u8 tail , 
+} ")).
+Eval vm_compute in ("<<<M1505>>>" ++ check (runes_of_ascii "// top
+MetaData leftPad {
+    // c2
+    chars MetaDataX,
+    // c5
+}
+
+// c6
+packet repeatCount {
+    // c9
+    char[255] uint8x `" ++ [233]%N ++ runes_of_ascii "`,
+    // c15
+}
+
+// c16
+MetaData pack {
+    // c19
+    As Foo,
+    // c22
+}
+// c23")).
+Eval vm_compute in ("<<<M265>>>" ++ check (runes_of_ascii "MetaData
+    zchar
+{
+uint8 _x
+// `tick` ""quote"" 'q'
+//
+`doc` ,
+    float64 metadata`doc` // " ++ [128512]%N ++ runes_of_ascii " emoji
+, zchar[ 42
+    ]
+// packet A { u8 x, }
+// c
+x_y_z , zchar[ 3 ]Logon `{ , }`
+, }
+
+")).
+Eval vm_compute in ("<<<M1702>>>" ++ check (runes_of_ascii "
+MetaData
+    leftPad
+
+{
+	chars
+
+    MetaDataX
+    ,
+}packet repeatCount
+    {
+    char[	// c
+    	255
+
+    ]uint8x`" ++ [233]%N ++ runes_of_ascii "` 
+, } 
+MetaData
+    pack	{As
+    Foo
+,
+	}
+
+")).
+Eval vm_compute in ("<<<M187>>>" ++ check (runes_of_ascii "
+options// " ++ [27880; 37322]%N ++ runes_of_ascii "
+{
+f32a= ""a\""b""//x
+; Z9_ = // " ++ [27880; 37322]%N ++ runes_of_ascii "
+""`tick`""	Logon
+    // " ++ [27880; 37322]%N ++ runes_of_ascii "
+    =""CRC32""u128= f64 ;rootA	=
+false ;} //	t
+packet lengthOf {
+} MetaData len { }
+")).
+Eval vm_compute in ("<<<M523>>>" ++ check (runes_of_ascii "packet uint8x
+{ match pack
+    as msg_type	{
+    0123456789 :	float
+}
+,
+} packet //	t
+a1
+    { } options {packetx
+    = '\x00'	; u128= MetaData  ; }
+")).
+Eval vm_compute in ("<<<M536>>>" ++ check (runes_of_ascii "packet uint8x
+{ match pack
+    as msg_type	{
+    0123456789 :	float
+}
+,
+} packet //	t
+a1
+    { } options {packetx
+    = '\x00'	/; u128= ""a	b""  ; }
+")).
+Eval vm_compute in ("<<<M477>>>" ++ check (runes_of_ascii "packet uint8x
+{ match pack
+    as msg_type	{
+    0123456789 :	float
+}
+,
+} packet //	t
+a1
+    { options } {packetx
+    = '\x00'	; u128= ""a	b""  ; }
+")).
+Eval vm_compute in ("<<<M1601>>>" ++ check (runes_of_ascii "
+MetaData leftPad 
+{
+chars MetaDataX 
+, }  packet 
+    // c
+  repeatCount
+
+{  char[
+    255
+    ]
+    uint8x	`" ++ [233]%N ++ runes_of_ascii "` 
+, } 
+MetaData
+
+pack{
+	As
+Foo 
+,
+}")).
+Eval vm_compute in ("<<<M661>>>" ++ check (runes_of_ascii "// @lengthOf(
+packet i8i8 { u128 o o , }
+options { MetaDataX = true;
+    BodyLength =""packet"" x_y_z= 007
+crc //x
+= ""abc"" ;
+    msg_type =
+i16 }")).
+Eval vm_compute in ("<<<M662>>>" ++ check (runes_of_ascii "// @lengthOf(
+packet i8i8 { u128 o , }
+{ options MetaDataX = true;
+    BodyLength =""packet"" x_y_z= 007
+crc //x
+= ""abc"" ;
+    msg_type =
+i16 }")).
+Eval vm_compute in ("<<<M1777>>>" ++ check (runes_of_ascii "  packet	u  {repeat 
+    // " ++ [128512]%N ++ runes_of_ascii " emoji
+
+A	,
+    @lengthOf(lengthOf  )
+
+repeat
+	i64
+
+i64_
+,  //
+    zchar[	3 	 // a // b
+      ]
+    body
+, }
+
+")).
+Eval vm_compute in ("<<<M1864>>>" ++ check (runes_of_ascii "
+packet  B
+
+{
+u8 a
+
+, 
+}
+root packet	P
+{
+u8
+K
+    ,u64  L
+@lengthOf( Body )
+,
+    match	K as Body
+
+    {
+1 :  B ,
+
+}
+    , 
+}
+")).
+Eval vm_compute in ("<<<M1419>>>" ++ check (runes_of_ascii "packet Logon {
+    repeatCount @lengthOf(roots),
+    @tag(0)
+    repeat zchar[007] crc,
+    rootA a1 `{ , }`,
+    string_ `" ++ [233]%N ++ runes_of_ascii "`,
+}")).
+Eval vm_compute in ("<<<M680>>>" ++ check (runes_of_ascii "// @lengthOf(
+packet i8i8 { u128 o , }
+options { MetaDataX = true;
+    BodyLength =""packet"" x_y_z= 007
+crc //x
+= ""abc""")).
+Eval vm_compute in ("<<<M1164>>>" ++ check (runes_of_ascii "MetaData leftPad { chars MetaDataX , } packet repeatCount { char[
+// c
+255 ] uint8x `" ++ [233]%N ++ runes_of_ascii "` , } MetaData pack { As Foo , }")).
+Eval vm_compute in ("<<<M1862>>>" ++ check (runes_of_ascii "
+packet  A 
+{
+match
+
+k as 
+n
+
+{	[ 
+1
+
+,  ""bb""  ,007
+	,
 ""d""
 
-    ,
-5,  ""f""
-    ,
-	7,
-    ""h"" ,
-    9,
+    , 
+5,
 
-""j""
-, 11
-]
+    ""f""
 
-    : B
-,  2	:
-    C
-}
+] :
+
+    B,
+2
+
+: C }
 ,
-    }
+    } ")).
+Eval vm_compute in ("<<<M1719>>>" ++ check (runes_of_ascii "options {
+    metadata = '\x00';
+    u128 = ""CRC32"";
+    charz = ' '
+    options1 = 00;
+}
 
-")).
-Eval vm_compute in ("<<<M1899>>>" ++ check (runes_of_ascii "packet calculatedFrom {
-    uint8x {
-        body `line1
-        line2`,
-        string crc @lengthOf(uint8x),
-        char[] As @lengthOf(Pad),
-    },
+packet string_ {
 }")).
-Eval vm_compute in ("<<<M545>>>" ++ check (runes_of_ascii "packet uint8x
-{ match' pack
-    as msg_type	{
-    0123456789 :	float
-}
-,
-} packet //	t
-a1
-    { } options {packetx
-    = '\x00'	; u128= ""a	b""  ; }
+Eval vm_compute in ("<<<M352>>>" ++ check (runes_of_ascii "packet _x {
+} // trailing space 
+options
+    { repeatCount
+    =42 //x
+;Pad = true;
+x_y_z =
+65535 ;}
 ")).
-Eval vm_compute in ("<<<M498>>>" ++ check (runes_of_ascii "packet uint8x
-{ match pack
-    as msg_type	{
-    0123456789 :	float
-}
+Eval vm_compute in ("<<<M373>>>" ++ check (runes_of_ascii "  MetaData leftPad { /// triple
+char[] body,  As options1
+//
+/// triple
 ,
-} packet //	t
-a1
-    { } options {packetx
-    ; '\x00'	; u128= ""a	b""  ; }
+o
+    //x
+    i64_
+, }
 ")).
-Eval vm_compute in ("<<<M415>>>" ++ check (runes_of_ascii "packet uint8x
-{ match pack
-     msg_type	{
-    0123456789 :	float
-}
-,
-} packet //	t
-a1
-    { } options {packetx
-    = '\x00'	; u128= ""a	b""  ; }
-")).
-Eval vm_compute in ("<<<M674>>>" ++ check (runes_of_ascii "// @lengthOf(
-packet i8i8 { { u128 o , }
-options { MetaDataX = true;
-    BodyLength =""packet"" x_y_z= 007
-crc //x
-= ""abc"" ;
-    msg_type =
-i16 }")).
-Eval vm_compute in ("<<<M679>>>" ++ check (runes_of_ascii "// @lengthOf(
-packet { i8i8 u128 o , }
-options { MetaDataX = true;
-    BodyLength =""packet"" x_y_z= 007
-crc //x
-= ""abc"" ;
-    msg_type =
-i16 }")).
-Eval vm_compute in ("<<<M669>>>" ++ check (runes_of_ascii "// @lengthOf(
-packet i8i8 {  o , }
-options { MetaDataX = true;
-    BodyLength =""packet"" x_y_z= 007
-crc //x
-= ""abc"" ;
-    msg_type =
-i16 }")).
-Eval vm_compute in ("<<<M16>>>" ++ check (runes_of_ascii "options { }MetaData u8x { uint8x	body`crlf
-line`
-    //	t
-    , calculatedFrom body ,
-}
-    options  {
-} root packet options1
-{  }")).
-Eval vm_compute in ("<<<M1756>>>" ++ check (runes_of_ascii "MetaData leftPad {
-    chars MetaDataX,
-}
-
-packet repeatCount {
-    char[255] uint8x `" ++ [233]%N ++ runes_of_ascii "`,
-}
-
-MetaData pack {
-    As Foo,
-}// c")).
-Eval vm_compute in ("<<<M1189>>>" ++ check (runes_of_ascii "MetaData leftPad { chars MetaDataX , } packet repeatCount { char[ 255 ] uint8x `" ++ [233]%N ++ runes_of_ascii "` , } MetaData pack { As Foo , } // c
-")).
-Eval vm_compute in ("<<<M1169>>>" ++ check (runes_of_ascii "MetaData leftPad { chars MetaDataX , } packet repeatCount { char[ 255 ] uint8x // c
-`" ++ [233]%N ++ runes_of_ascii "` , } MetaData pack { As Foo , }")).
-Eval vm_compute in ("<<<M499>>>" ++ check (runes_of_ascii "packet uint8x
-{ match pack
-    as msg_type	{
-    0123456789 :	float
-}
-,
-} packet //	t
-a1
-    { } options {packetx")).
-Eval vm_compute in ("<<<M919>>>" ++ check (runes_of_ascii "packet A {
-    u16 len @lengthOf(body) `a
-b`,
-    u32 crc @calculatedFrom(""CRC32"") `a
-b`,
-    string body,
-}")).
-Eval vm_compute in ("<<<M926>>>" ++ check (runes_of_ascii "packet A {
+Eval vm_compute in ("<<<M1254>>>" ++ check (runes_of_ascii "
+packet
     Inner {
-        u8 x `a
-b`,
-        Deep {
-            u8 y `a
-b`,
-        },
+    u8 a
+
+,
+} root
+	packet P
+
+    {  repeat
+    Inner items,	u8 
+x	, } ")).
+Eval vm_compute in ("<<<M1731>>>" ++ check (runes_of_ascii "packet body {
+    match Logon as _x {
+        4294967296 : _x,
+        """ ++ [28040; 24687]%N ++ runes_of_ascii """ : u128,
     },
 }")).
-Eval vm_compute in ("<<<M899>>>" ++ check (runes_of_ascii "packet A {
-  match k as n {
-    [1, 22, ""c c"", 4, 5, ""f"", 7, 8, ""i"", 10, 11] : B,
-    2 : C
-  },
-}")).
-Eval vm_compute in ("<<<M605>>>" ++ check (runes_of_ascii "
+Eval vm_compute in ("<<<M640>>>" ++ check (runes_of_ascii "
 packet
     asx {match u128 as lengthOf
 {
 //	t
 // `tick` ""quote"" 'q'
-255 : repeat ,
+$255 : x ,
     } ,	}")).
-Eval vm_compute in ("<<<M588>>>" ++ check (runes_of_ascii "
+Eval vm_compute in ("<<<M597>>>" ++ check (runes_of_ascii "
 packet
     asx {match u128 as lengthOf
-{ {
+{
+//	t
+// `tick` ""quote"" 'q'
+255  x ,
+    } ,	}")).
+Eval vm_compute in ("<<<M860>>>" ++ check (runes_of_ascii "packet A {
+  match k as n {
+    [1, 22, ""c c"", 4, 5, ""f"", 7, 8] : B,
+    2 : C
+  },
+}")).
+Eval vm_compute in ("<<<M582>>>" ++ check (runes_of_ascii "
+packet
+    asx {match u128 as 
+{
 //	t
 // `tick` ""quote"" 'q'
 255 : x ,
     } ,	}")).
-Eval vm_compute in ("<<<M564>>>" ++ check (runes_of_ascii "
-packet
-    asx match{ u128 as lengthOf
-{
-//	t
-// `tick` ""quote"" 'q'
-255 : x ,
-    } ,	}")).
-Eval vm_compute in ("<<<M595>>>" ++ check (runes_of_ascii "
-packet
-    asx {match u128 as lengthOf
-{
-//	t
-// `tick` ""quote"" 'q'
-: : x ,
-    } ,	}")).
-Eval vm_compute in ("<<<M843>>>" ++ check (runes_of_ascii "packet A {
-  match k as n {
-    [1, ""bb"", 007, ""d"", 5, ""f"", 7] : B,
-    2 : C
-  },
-}")).
-Eval vm_compute in ("<<<M1629>>>" ++ check (runes_of_ascii "packet A {
+Eval vm_compute in ("<<<M1913>>>" ++ check (runes_of_ascii "packet A {
     match k as n {
-        [1, ""bb"", 007] : B,
+        [1, 22, 007] : B,
         2 : C,
     },
 }")).
-Eval vm_compute in ("<<<M903>>>" ++ check (runes_of_ascii "packet A { Inner { match k as n { [1,22,007,4,5,66,7,8,9,10,11] : B, }, }, }")).
-Eval vm_compute in ("<<<M1099>>>" ++ check (runes_of_ascii "packet A {
-    match k as n {
-        1 : B // c
-        , // d
-    },
-}")).
-Eval vm_compute in ("<<<M801>>>" ++ check (runes_of_ascii "packet A {
-  match k as n {
-    [1, 22, 007, 4] : B
-    2 : C
-  },
-}")).
-Eval vm_compute in ("<<<M784>>>" ++ check (runes_of_ascii "packet A {
-  match k as n {
-    [""a"", 22] : B,
-    2 : C
-  },
-}")).
-Eval vm_compute in ("<<<M1522>>>" ++ check (runes_of_ascii "packet body {
-    // c
-    i32 f32a `{ , }`,
+Eval vm_compute in ("<<<M1432>>>" ++ check (runes_of_ascii "packet Inner {
+    u8 a,
 }
 
-options {
+root packet P {
+    Inner ref_obj,
+    u8 x,
 }")).
-Eval vm_compute in ("<<<M1245>>>" ++ check (runes_of_ascii "root
-    packet	P
-{repeat
-
-char 
-cs  ,u8
-
-    x ,} ")).
-Eval vm_compute in ("<<<M1214>>>" ++ check (runes_of_ascii "packet body { i32 f32a `{ , }` , }
-// c
-options { }")).
-Eval vm_compute in ("<<<M945>>>" ++ check (runes_of_ascii "MetaData M {
-    u8 x `a
-
-b`,
-    T t `a
-
-b`,
+Eval vm_compute in ("<<<M794>>>" ++ check (runes_of_ascii "packet A {
+  match k as n {
+    [""a"", 22, ""c c""] : B
+    2 : C
+  },
 }")).
-Eval vm_compute in ("<<<M363>>>" ++ check (runes_of_ascii "MetaData
-    // @lengthOf(
-    tag {
-    }")).
-Eval vm_compute in ("<<<M1531>>>" ++ check (runes_of_ascii "// c
-    packet  asx
-	{
-}/// triple
+Eval vm_compute in ("<<<M167>>>" ++ check (runes_of_ascii "packet msg_type { repeat// " ++ [27880; 37322]%N ++ runes_of_ascii "
+zchar[  007] Logon `two words`, }
 ")).
-Eval vm_compute in ("<<<M105>>>" ++ check (runes_of_ascii "// " ++ [128512]%N ++ runes_of_ascii " emoji
-MetaData crc
-    {  }")).
-Eval vm_compute in ("<<<M998>>>" ++ check (runes_of_ascii "packet A {
- u8 x `d" ++ [5760]%N ++ runes_of_ascii "`, // c" ++ [5760]%N ++ runes_of_ascii "
+Eval vm_compute in ("<<<M314>>>" ++ check (runes_of_ascii "root packet string_{
+char[] matchKey ,
+} packet x {
+    } 	 ")).
+Eval vm_compute in ("<<<M1745>>>" ++ check (runes_of_ascii "packet calculatedFrom {
+    repeat string Foo `{ , }`,
 }")).
-Eval vm_compute in ("<<<M1843>>>" ++ check (runes_of_ascii "packet
-A{ } 
-      // c" ++ [8239]%N ++ runes_of_ascii "
+Eval vm_compute in ("<<<M1204>>>" ++ check (runes_of_ascii "packet body {
+// c
+i32 f32a `{ , }` , } options { }")).
+Eval vm_compute in ("<<<M1243>>>" ++ check (runes_of_ascii "root packet P {
+    repeat char cs,
+    u8 x,
+}
+")).
+Eval vm_compute in ("<<<M596>>>" ++ check (runes_of_ascii "
+packet
+    asx {match u128 as lengthOf
+{")).
+Eval vm_compute in ("<<<M1637>>>" ++ check (runes_of_ascii "packet A {
+    u8 x `a
+        b`,
+}")).
+Eval vm_compute in ("<<<M1533>>>" ++ check (runes_of_ascii "
+
+  packet
+A{ u8
+
+x  `a
+b` 
+, }
+
+")).
+Eval vm_compute in ("<<<M1833>>>" ++ check (runes_of_ascii "
+
+  // c 	
+    packet 
+A {
+	}
+")).
+Eval vm_compute in ("<<<M1884>>>" ++ check (runes_of_ascii "
+packet A
+
+{ 
+} 
+    // c" ++ [65279]%N ++ runes_of_ascii "
  
 ")).
-Eval vm_compute in ("<<<M414>>>" ++ check (runes_of_ascii "packet uint8x
-{ match")).
-Eval vm_compute in ("<<<M59>>>" ++ check (runes_of_ascii "packet
-int {
-}
-//	t
+Eval vm_compute in ("<<<M1399>>>" ++ check (runes_of_ascii "// c
+    MetaData	u{ }
 ")).
-Eval vm_compute in ("<<<M977>>>" ++ check (runes_of_ascii "// c 
+Eval vm_compute in ("<<<M1064>>>" ++ check (runes_of_ascii "packet A {
+}// a// b")).
+Eval vm_compute in ("<<<M1135>>>" ++ check (runes_of_ascii "MetaData u {
+// c
+}")).
+Eval vm_compute in ("<<<M1032>>>" ++ check (runes_of_ascii "// c" ++ [11]%N ++ runes_of_ascii "
 packet A {
 }")).
-Eval vm_compute in ("<<<M1059>>>" ++ check (runes_of_ascii "packet A {
-}// c x")).
-Eval vm_compute in ("<<<M1228>>>" ++ check (runes_of_ascii "packet x // c
-{ }")).
-Eval vm_compute in ("<<<M319>>>" ++ check (runes_of_ascii "packet o
-{
-}
-")).
-Eval vm_compute in ("<<<M990>>>" ++ check (runes_of_ascii "// c" ++ [133]%N)).
-Eval vm_compute in ("<<<M725>>>" ++ check (runes_of_ascii " ")).
+Eval vm_compute in ("<<<M1024>>>" ++ check (runes_of_ascii "packet A {
+}// c" ++ [8287]%N)).
+Eval vm_compute in ("<<<M626>>>" ++ check (runes_of_ascii "
+packet
+    as")).
+Eval vm_compute in ("<<<M758>>>" ++ check (runes_of_ascii "LE]u'")).
+Eval vm_compute in ("<<<M730>>>" ++ check (runes_of_ascii "//")).
